@@ -509,6 +509,8 @@ func (c *Conn) NetConn() net.PacketConn {
 
 // PeerCertificates 返回对端证书链，握手完成后可用。
 func (c *Conn) PeerCertificates() []*x509.Certificate {
+	c.handshakeMutex.Lock()
+	defer c.handshakeMutex.Unlock()
 	return c.peerCertificates
 }
 
